@@ -802,6 +802,17 @@ def gen_c04_spec(rng: random.Random, A: int, P: int) -> Dict[str, Any]:
         # slow (well-behaved) middleware hooks: the message is being processed while they run
         spec["mws"] = [{h: {"async": True, "lat": rng.choice([0.3, 1.0, 2.0]), "style": rng.choice(["async", "async", "awaitable", "task"])}
                         for h in rng.sample(["pre_execute", "post_execute", "post_save", "on_error"], rng.randint(1, 2))}]
+    if not sync_tasks and "tasks" not in spec and rng.random() < 0.12:
+        # task functions that hand their message back (Context.requeue) through a broker whose send takes time; with a
+        # timeout label that fires during the send the message ends - and the send must have ended with it
+        spec["kick_lat"] = rng.choice([0.5, 1.0, 2.0])
+        for m in msgs:
+            if m.get("kind", "valid") == "valid" and m["task"] == "t_async" and m.get("timeout_raw") is None and rng.random() < 0.4:
+                m["task"] = "t_ctx"
+                m["beh"] = {"dur": [rng.choice([0.0, 0.05])], "out": "requeue"}
+                m.pop("timeout", None)
+                if rng.random() < 0.7:
+                    m["timeout"] = rng.choice([0.2, 0.3])
     if rng.random() < 0.1 and "stop_at" not in spec:
         spec["via"] = "api"
     if rng.random() < 0.3:
@@ -1345,7 +1356,20 @@ def gen_c07_spec(rng: random.Random) -> Dict[str, Any]:
         spec["mws"] = [{h: {"async": rng.random() < 0.5, "mutate_labels": True} for h in ("on_error", "post_execute", "post_save") if rng.random() < 0.7}]
         if not spec["mws"][0]:
             spec.pop("mws")
-    if rng.random() < 0.15:
+        elif rng.random() < 0.4:
+            # an at-least-once broker delivers one message again (same bytes) after the first delivery was annotated:
+            # the second delivery is a message of its own
+            cands = [i for i, m_ in enumerate(msgs) if m_["task"] == "t_async" and m_.get("timeout") is None and m_["beh"]["out"] != "noresult"
+                     and "never" not in m_["beh"].get("dur", [])]
+            if cands:
+                i = rng.choice(cands)
+                msgs.append({"dup_of": i, "at": round(msgs[i]["at"] + (O._dur_total(msgs[i]["beh"]) or 0) + rng.choice([0.0, 0.01, 0.3, 1.0]), 6),
+                             "kind": "valid", "task": "t_async", "ackable": msgs[i]["ackable"], "beh": msgs[i]["beh"]})
+                spec["no_inmemory"] = True
+    if "mws" not in spec and rng.random() < 0.08:
+        spec["mws"] = [{"pre_execute": {"async": rng.random() < 0.5, "retag": True}}]
+        spec["no_inmemory"] = True
+    if rng.random() < 0.15 and not spec.pop("no_inmemory", False):
         spec["via"] = "inmemory"
         spec["inplace"] = rng.random() < 0.5  # InMemoryBroker(await_inplace=True): kiq returns after the execution
     spec["horizon"] = est_horizon(spec)
